@@ -56,7 +56,7 @@ def _view(tag_text, schema):
 def prefixed_equals_alone(t: str) -> bool:
     """
     pre: 1 <= len(t) <= R.N(3)
-    pre: R.scell(t, ":/")
+    pre: R.scell(t, "/")
     pre: R.ascii_printable(t)
     pre: ":" not in t
     post: _
@@ -66,7 +66,7 @@ def prefixed_equals_alone(t: str) -> bool:
     alone, e2 = _view(t, MINI)            # MINI_P is the same schema as MINI, loaded under the prefix
     if in_group != alone:
         return False
-    if e1 is not None and e1 is not MINI_P.tags.get(e1.long_tag_name):
+    if e1 is not None and e1 is not MINI_P.tags.get(e1.name):
         return False                      # resolved inside the wrong member schema
     # an unprefixed tag in the group is judged as against the unprefixed schema alone (same entry object)
     in_group_u, e3 = _view(t, GROUP)
@@ -109,6 +109,7 @@ def foreign_prefix(q: str, t: str) -> bool:
 def set_prefix_syntax(q: str, colon: bool) -> bool:
     """
     pre: len(q) <= R.N(3)
+    pre: R.env_int("VP_LEN") is None or len(q) == R.env_int("VP_LEN")
     pre: R.ascii_printable(q)
     pre: ":" not in q
     post: _
@@ -202,9 +203,9 @@ HARNESSES = [
          "hed.schema.hed_schema.HedSchema._find_tag_entry", "hed.schema.hed_schema.HedSchema._find_tag_subfunction",
          "hed.schema.hed_schema_group.HedSchemaGroup.schema_for_namespace",
          "hed.models.hed_tag.HedTag._calculate_to_canonical_forms"],
-        quick=R.tier(cells=R.str_cells(3, split1_from=3, nclass=3, minlen=1), env={"VP_N": 3}, timeout=200,
+        quick=R.tier(cells=R.str_cells(3, split1_from=3, nclass=2, minlen=1), env={"VP_N": 3}, timeout=300,
                      bound="every printable-ASCII tag text t without ':', 1 <= len(t) <= 3"),
-        thorough=R.tier(cells=R.str_cells(4, split1_from=3, split2_from=4, nclass=3, minlen=1), env={"VP_N": 4},
+        thorough=R.tier(cells=R.str_cells(4, split1_from=3, split2_from=4, nclass=2, minlen=1), env={"VP_N": 4},
                         timeout=1200, bound="same with len(t) <= 4"),
         what="'p:'+t in the group resolves to the same node name, remainder and issue codes as t against p's schema "
              "alone, inside the p: member schema; unprefixed t in the group equals t against the unprefixed schema",
@@ -220,8 +221,9 @@ HARNESSES = [
              "character-level prefix check flags a prefix iff it is not purely alphabetic",
         oracle="inline ASCII-letters predicate", stubs=_ST, outside="non-ASCII prefixes"),
     R.H("set_prefix_syntax", ["hed.schema.hed_schema.HedSchema.set_schema_prefix"],
-        quick=R.tier(env={"VP_N": 3}, timeout=120, bound="prefix body q: <= 3 printable ASCII chars, with/without colon"),
-        thorough=R.tier(env={"VP_N": 5}, timeout=600, bound="q <= 5 chars"),
+        quick=R.tier(cells=R.int_cells("VP_LEN", 0, 2), env={"VP_N": 2}, timeout=200,
+                     bound="prefix body q: <= 2 printable ASCII chars, with/without colon"),
+        thorough=R.tier(cells=R.int_cells("VP_LEN", 0, 4), env={"VP_N": 4}, timeout=900, bound="q <= 4 chars"),
         what="set_schema_prefix raises HedFileError iff the body is non-empty-required and not purely alphabetic; "
              "otherwise the stored namespace is the body plus ':'",
         oracle="inline", stubs=_ST, outside="non-ASCII prefixes"),
